@@ -5,6 +5,7 @@ import (
 	"strings"
 	"sync"
 	"testing"
+	"time"
 )
 
 // The conformance suite binds the scheduler's channel / mutex / wait-group
@@ -210,5 +211,77 @@ func TestConformanceWithGoRuntime(t *testing.T) {
 			}
 			t.Logf("explored %d outcome(s) in %d executions; real runtime showed %d", len(model), st.Executions, len(real))
 		})
+	}
+}
+
+func TestSelectSemantics(t *testing.T) {
+	// timeout vs completion: both outcomes must be explored
+	o, st := outcomes(t, 1<<20, func(rec func(string)) {
+		done := make(chan struct{})
+		Go("worker", func() { Yield("work"); Close(done) })
+		sel := NewSelect()
+		SelRecv(sel, done)
+		SelRecv(sel, After(5*time.Second))
+		switch sel.Do() {
+		case 0:
+			rec("done")
+		case 1:
+			rec("timeout")
+		}
+	})
+	if !st.Unbounded || len(o) != 2 {
+		t.Fatalf("want both select outcomes, got %v", keys(o))
+	}
+	// a send case completes by rendezvous with a plain receiver
+	o, _ = outcomes(t, 1<<20, func(rec func(string)) {
+		ch := make(chan int)
+		got := make(chan int, 1)
+		Go("r", func() { Send(got, Recv(ch)) })
+		sel := NewSelect()
+		SelSend(sel, ch, 7)
+		if sel.Do() != 0 {
+			rec("wrong case")
+		}
+		rec(fmt.Sprint(Recv(got)))
+	})
+	if len(o) != 1 || !o["7|"+EndAllDone] {
+		t.Fatalf("got %v", keys(o))
+	}
+	// default is taken when (and only when) nothing is ready
+	o, _ = outcomes(t, 1<<20, func(rec func(string)) {
+		ch := make(chan int, 1)
+		sel := NewSelect()
+		r := SelRecv(sel, ch)
+		sel.Default()
+		rec(fmt.Sprint(sel.Do()))
+		Send(ch, 3)
+		sel = NewSelect()
+		r = SelRecv(sel, ch)
+		sel.Default()
+		rec(fmt.Sprint(sel.Do(), r.Val, r.Ok))
+	})
+	if len(o) != 1 || !o["-1,0 3 true|"+EndAllDone] {
+		t.Fatalf("got %v", keys(o))
+	}
+	// plain sender completes a select receive and the value arrives typed
+	o, _ = outcomes(t, 1<<20, func(rec func(string)) {
+		a := make(chan string)
+		b := make(chan string)
+		Go("sa", func() { Send(a, "A") })
+		Go("sb", func() { Send(b, "B") })
+		for i := 0; i < 2; i++ {
+			sel := NewSelect()
+			ra := SelRecv(sel, a)
+			rb := SelRecv(sel, b)
+			switch sel.Do() {
+			case 0:
+				rec(ra.Val)
+			case 1:
+				rec(rb.Val)
+			}
+		}
+	})
+	if len(o) != 2 || !o["A,B|"+EndAllDone] || !o["B,A|"+EndAllDone] {
+		t.Fatalf("got %v", keys(o))
 	}
 }
